@@ -766,7 +766,18 @@ pub fn walk(p: &Params, cfg: &WalkCfg, seed: u64) -> (Vec<Value>, Vec<String>) {
                             json!({"t": "UNSUBACK", "id": id, "rcs": rcs, "props": props})
                         }
                     };
-                    do_step(&mut s, &mut rng, &mut script, json!({"a": "pkt", "pk": pk}));
+                    // wire form: an acknowledgement without properties may omit the Property Length, and with reason 0x00 the
+                    // reason as well (MQTT 5 3.4.2.1) - the outcome reported to the caller must not depend on the form
+                    let mut st = json!({"a": "pkt", "pk": pk});
+                    if matches!(t, mqtt::PUBACK | mqtt::PUBREC | mqtt::PUBCOMP) && st["pk"]["props"].as_array().map(|a| a.is_empty()).unwrap_or(true) {
+                        let rc0 = st["pk"]["rc"].as_u64().unwrap_or(0) == 0;
+                        match rng.gen_range(0..3) {
+                            0 => st["form"] = json!(3),
+                            1 if rc0 => st["form"] = json!(2),
+                            _ => {}
+                        }
+                    }
+                    do_step(&mut s, &mut rng, &mut script, st);
                 }
             }
             "unsol" => {
@@ -889,12 +900,15 @@ pub fn walk(p: &Params, cfg: &WalkCfg, seed: u64) -> (Vec<Value>, Vec<String>) {
                 }
             }
             "srvdisc0" => {
-                do_step(&mut s, &mut rng, &mut script, json!({"a": "pkt", "pk": {"t": "DISCONNECT", "rc": 0}, "form": 2}));
+                let form = *choose(&mut rng, &[0u8, 1, 2]);
+                do_step(&mut s, &mut rng, &mut script, json!({"a": "pkt", "pk": {"t": "DISCONNECT", "rc": 0}, "form": form}));
             }
             "srvdisc" => {
                 let rc = *choose(&mut rng, &DISCONNECT_REASONS[2..]);
                 let props = ack_content(&mut rng, 50);
-                do_step(&mut s, &mut rng, &mut script, json!({"a": "pkt", "pk": {"t": "DISCONNECT", "rc": rc, "props": props}, "form": 2}));
+                // without properties the Property Length may be omitted (remaining length 1)
+                let form = if props.as_array().map(|a| a.is_empty()).unwrap_or(true) && rng.gen_range(0..2) == 0 { 1 } else { 2 };
+                do_step(&mut s, &mut rng, &mut script, json!({"a": "pkt", "pk": {"t": "DISCONNECT", "rc": rc, "props": props}, "form": form}));
             }
             "eof" => {
                 do_step(&mut s, &mut rng, &mut script, json!({"a": "eof"}));
